@@ -7,7 +7,7 @@ from harness import compat  # noqa: F401
 import numpy as np
 from distance3d import colliders, containment, geometry
 from distance3d.hydroelastic_contact import _rigid_body, _mesh_processing
-from harness.impl.c03 import build, pose4, arr, fl
+from harness.impl.c03 import build, pose4, arr, fl, build_with_history, shape_at
 from harness.impl import shapes_trace as st
 
 TRACE_FILES = [containment.__file__, colliders.__file__, _rigid_body.__file__, _mesh_processing.__file__, geometry.__file__]
@@ -121,7 +121,8 @@ def run_case(case):
         if sh["kind"] == "rigid_body":
             out.update(run_rigid_body(sh))
             return out
-        c, extra = build(sh)
+        hist = case.get("history")
+        c, extra = build(sh if hist is None else shape_at(sh, hist["start"]))
         out.update(extra)
     except BaseException as e:  # noqa
         out["build_exc"] = type(e).__name__
@@ -132,6 +133,15 @@ def run_case(case):
         col = c
         if case.get("margin") is not None:
             col = colliders.Margin(c, float(case["margin"]))
+        if hist is not None:
+            # the collider reaches the pose of `sh` through update_pose calls on ONE re-used pose array; aabb() is
+            # asked after construction and after every update (twice: a cached box would be returned the second time)
+            def observe(cl):
+                b1 = np.asarray(traced(cl.aabb), dtype=float)
+                b2 = np.asarray(cl.aabb(), dtype=float)
+                return dict(aabb=[fl(b1[:, 0]), fl(b1[:, 1])], again_same=bool(np.array_equal(b1, b2, equal_nan=True)))
+            c, col, _, stages = build_with_history(sh, hist, case.get("margin"), observe, triangles=extra.get("triangles"))
+            out["stages"] = stages
         from harness.impl.c03 import array_state, changed
         state0 = array_state(c)
         box = np.asarray(traced(col.aabb), dtype=float)
